@@ -66,7 +66,16 @@ def hexs(s: str) -> str:
 def ask(lines, timeout=600):
     if not lines:
         return []
-    p = subprocess.run([str(EXE)], input="\n".join(lines) + "\n", stdout=subprocess.PIPE, stderr=subprocess.DEVNULL, text=True, timeout=timeout)
+    import time
+    for attempt in range(40):
+        # the executable may be in the middle of being re-linked by a concurrent `lake build` of another check: wait for it
+        try:
+            p = subprocess.run([str(EXE)], input="\n".join(lines) + "\n", stdout=subprocess.PIPE, stderr=subprocess.DEVNULL, text=True, timeout=timeout)
+            break
+        except (FileNotFoundError, PermissionError, OSError):
+            if attempt == 39:
+                raise
+            time.sleep(3)
     out = p.stdout.split("\n")
     if out and out[-1] == "":
         out.pop()
@@ -697,12 +706,14 @@ LOOPS = ("while", "up", "down", "in")
 COMPOUNDS = ("if", "ifelse") + LOOPS
 
 
-def skeleton_bodies(k, maxlen, in_loop, memo):
-    """all bodies (tuples of items) with EXACTLY k compound constructs and 1..maxlen items"""
-    key = (k, maxlen, in_loop)
+def skeleton_bodies(k, maxlen, in_loop, memo, minlen=1, empties=False):
+    """all bodies (tuples of items) with EXACTLY k compound constructs and minlen..maxlen items; with `empties`, the bodies of
+    compound constructs may also be empty (except the else branch: `if c then t else end if` IS the if without else)"""
+    key = (k, maxlen, in_loop, minlen, empties)
     if key in memo:
         return memo[key]
     out = []
+    lo = 0 if empties else 1
     def items(kk):
         """single items using exactly kk compounds"""
         if kk == 0:
@@ -713,11 +724,11 @@ def skeleton_bodies(k, maxlen, in_loop, memo):
             il = in_loop or kind in LOOPS
             if kind == "ifelse":
                 for a in range(inner + 1):
-                    for t in skeleton_bodies(a, maxlen, il, memo):
-                        for e in skeleton_bodies(inner - a, maxlen, il, memo):
+                    for t in skeleton_bodies(a, maxlen, il, memo, lo, empties):
+                        for e in skeleton_bodies(inner - a, maxlen, il, memo, 1, empties):
                             res.append(("ifelse", t, e))
             else:
-                for b in skeleton_bodies(inner, maxlen, il, memo):
+                for b in skeleton_bodies(inner, maxlen, il, memo, lo, empties):
                     res.append((kind, b))
         return res
     def seqs(n, kk):
@@ -730,7 +741,7 @@ def skeleton_bodies(k, maxlen, in_loop, memo):
                 for rest in seqs(n - 1, kk - a):
                     res.append((it,) + rest)
         return res
-    for n in range(1, maxlen + 1):
+    for n in range(minlen, maxlen + 1):
         out += seqs(n, k)
     # a body never consists of exit repeat followed by anything (dead code is not what a compiler emits for structured source;
     # it is still legal Lingo, so keep it) -- no pruning
@@ -738,10 +749,10 @@ def skeleton_bodies(k, maxlen, in_loop, memo):
     return out
 
 
-def skeletons(kmax, maxlen=2):
+def skeletons(kmax, maxlen=2, empties=False):
     memo = {}
     for k in range(0, kmax + 1):
-        for b in skeleton_bodies(k, maxlen, False, memo):
+        for b in skeleton_bodies(k, maxlen, False, memo, 1, empties):
             yield b
 
 
@@ -912,3 +923,55 @@ def c03_classes(stmts):
 if __name__ == "__main__":
     import logging; logging.disable(logging.CRITICAL)
     print(json.dumps(validate_scheme(), indent=1))
+
+
+# ---- the one coincidence of the compile scheme (lean/Drx/Spec/Supported.lean `isWithLike`): `set v = a` directly followed by
+# `repeat while v <= b ... set v = 1 + v` has the very bytes of `repeat with v = a to b`; expected read-back = the canonical form.
+
+def _is_var(e):
+    return isinstance(e, list) and len(e) == 2 and e[0] in ("l", "p", "g", "r")
+
+
+def c03_is_withlike(s1, s2):
+    if not (isinstance(s1, list) and isinstance(s2, list) and s1[:1] == ["set"] and s2[:1] == ["while"] and _is_var(s1[1])):
+        return False
+    v = s1[1]
+    c = s2[1]
+    if not (isinstance(c, list) and c[:2] == ["b", "le"] and c[2] == v) or len(s2) < 3:
+        return False
+    return s2[-1] == ["set", v, ["b", "add", ["i", 1], v]]
+
+
+def c03_canon(stmts):
+    """statement list with every with-like `set` + `repeat while` pair replaced by the `repeat with` it is byte-identical to"""
+    out = []
+    i = 0
+    stmts = [c03_canon_stmt(st) for st in stmts]
+    while i < len(stmts):
+        if i + 1 < len(stmts) and c03_is_withlike(stmts[i], stmts[i + 1]):
+            s1, s2 = stmts[i], stmts[i + 1]
+            out.append(["with", s1[1], s1[2], s2[1][3], "up"] + s2[2:-1])
+            i += 2
+        else:
+            out.append(stmts[i]); i += 1
+    return out
+
+
+def c03_canon_stmt(st):
+    if not isinstance(st, list) or not st:
+        return st
+    if st[0] == "if":
+        return ["if", st[1], c03_canon(st[2]), c03_canon(st[3])]
+    if st[0] == "while":
+        return st[:2] + c03_canon(st[2:])
+    if st[0] == "with":
+        return st[:5] + c03_canon(st[5:])
+    if st[0] == "in":
+        return st[:3] + c03_canon(st[3:])
+    if st[0] == "tell":
+        return st[:2] + c03_canon(st[2:])
+    return st
+
+
+def c03_has_withlike(stmts):
+    return c03_canon(stmts) != stmts
